@@ -144,6 +144,10 @@ class Ctx:
     # ---- finish ---------------------------------------------------------
     def finish(self, rule, extra=None, exhaustive=None):
         self.cov['rule'] = rule
+        sp = sys.modules.get('vlib.spell')
+        if sp is not None:
+            for lab, s_, sig in getattr(sp, '_checked', {}).get('__bad__', []):
+                self.drift('pool spelling %r (label %s) lexes to kinds %s on this tree, not to its intended kind' % (s_, lab, sig))
         self.cov['distinct_nontrivial'] = len(self._nontrivial)
         if exhaustive is not None:
             self.cov['exhaustive'] = exhaustive
